@@ -377,6 +377,12 @@ func (t *Trans) applyContract(fr *Frame, c *Contract, cname string, sig *types.S
 			sc.names[n] = specVal{args[i], ptypes[i]}
 		}
 	}
+	if t.selfTerm != "" {
+		sc.names["self"] = specVal{t.selfTerm, nil}
+		t.selfTerm = ""
+	}
+	// exit-updates of the callee: part of its effect
+	var exitUpd [][3]*Sx = c.ExitUpdates
 	var freshGhosts []string
 	for _, g := range c.Ghosts {
 		if v, ok := fr.ghosts[g.Name]; ok {
@@ -481,6 +487,14 @@ func (t *Trans) applyContract(fr *Frame, c *Contract, cname string, sig *types.S
 	post := &SpecCtx{t: t, fr: nil, st: fr.st, old: pre, names: sc.names, callerFr: fr}
 	for i, r := range res {
 		post.results = append(post.results, specVal{r, sig.Results().At(i).Type()})
+	}
+	for _, eu := range exitUpd {
+		comp := eu[0].Atom
+		if srt, ok := t.P.ghostComps[comp]; ok {
+			t.env.Comp(comp, srt)
+			// the callee's exit update fixes the entry of comp at the given index
+			t.assume(fr.curReach, fmt.Sprintf("(= (select %s %s) %s)", fr.st.get(comp), post.expand(eu[1]), post.expand(eu[2])))
+		}
 	}
 	for _, e := range c.Ensures {
 		if e.Kind == "ensures-assumed" {
@@ -617,6 +631,7 @@ func (t *Trans) callDynamic(fr *Frame, c *ssa.CallCommon, args []string, pos tok
 			names, ptypes := sigNames(sig, cb)
 			old := fr.entrySt
 			t.reqOld = &old
+			t.selfTerm = fv
 			res := t.applyContract(fr, cb, "callback."+p.Name(), sig, names, ptypes, args, nil, pos)
 			t.reqOld = nil
 			return res
@@ -631,6 +646,7 @@ func (t *Trans) callDynamic(fr *Frame, c *ssa.CallCommon, args []string, pos tok
 					cb2 := *cb
 					// relational clauses (mentioning the enclosing function's entry state) are not available inside the closure
 					cb2.Requires = cb.Requires[:cb.NImportedReq]
+					t.selfTerm = fr.val(c.Value)
 					return t.applyContract(fr, &cb2, "callback."+fv.Name(), sig, names, ptypes, args, nil, pos)
 				}
 			}
@@ -642,6 +658,7 @@ func (t *Trans) callDynamic(fr *Frame, c *ssa.CallCommon, args []string, pos tok
 			st := fa.X.Type().Underlying().(*types.Pointer).Elem()
 			if cb := t.P.cbField(st, fa.Field); cb != nil {
 				names, ptypes := sigNames(sig, cb)
+				t.selfTerm = fv
 				return t.applyContract(fr, cb, "callback."+st.Underlying().(*types.Struct).Field(fa.Field).Name(), sig, names, ptypes, args, nil, pos)
 			}
 		}
